@@ -89,3 +89,27 @@ check('C11', TV,
       'outside; tolerance 1e-6 (LP/MILP), 1e-4 (interior-point SOC).',
       'SMT certification (QF_LRA/QF_LIRA/QF_NRA) of every interface result against the compiled program',
       'DESIGN.md section 4 C11')
+
+check('C14', TV,
+      'Symbolic half: a symbolic dual solution (pi, upi, lpi) and primal point are injected as model.solution, the KKT '
+      'conditions of the real compiled LP are assumed (stationarity, signs, complementary slackness as disjunctions), '
+      'the real LinConstr.dual()/Bounds.dual() run unchanged on these symbolic arrays, and z3 decides for ALL KKT points '
+      'that the user-level certificate holds: objective gradient = dual-weighted constraint and bound gradients, '
+      'dual-weighted right-hand sides = objective value, signs by direction of optimisation, results shaped like their '
+      'constraints. Concrete half: the (pi, upi, lpi) of each dual-capable interface (SciPy, Gurobi, ECOS) give a valid '
+      'certificate whose value equals the exact optimum computed by z3.',
+      'Trusted: the KKT convention of the interfaces (stated in evidence.assumptions); z3; the harness\'s own reading of '
+      'the user model from the generator spec. Bounded: <= 4 variables, <= 4 constraint arrays, one upper/lower bound '
+      'constraint per entry.',
+      'symbolic solution injection into the real dual() code + QF_LRA over all KKT points; exact LRA optimum',
+      'DESIGN.md section 4 C14')
+
+check('C16', TV,
+      'The text of the real lp_export() is parsed by an independent LP-format reader and the DataFrame of the real '
+      'show() is converted back; z3 decides that each denotes exactly the formula that is solved: the feasible sets '
+      '(linear rows, second-order-cone rows, bounds) have empty symmetric difference, the objectives are equal as linear '
+      'forms, and General/Binary/Type data induce the same domains.',
+      'Trusted: the harness LP reader (LP-format defaults, float() for decimal strings), z3. Float formatting itself runs '
+      'concretely on enumerated coefficient values (negative, zero, 1e-9, 1e9, 1/3, infinite bounds, empty rows).',
+      'SMT equivalence (xor of feasible sets, QF_LRA/QF_NRA) between formula and parsed export',
+      'DESIGN.md section 4 C16')
